@@ -56,22 +56,23 @@ add("C18-quantile-over-subexpression-empty",
 add("C18-nested-bool-comparison",
     "a bool comparison whose operand is itself a parenthesised bool comparison: 1 == bool (600 == bool mem_used) returns nothing, (queue_len <= bool 1) != bool 100 returns 0 where Prometheus returns 1",
     "lib/util/lifted/promql2influxql/binary_expr.go (comparison with bool modifier over a comparison sub-query)",
-    every(["series-missing", "value:number"], ("instant", "range"),
+    every(["series-missing", "value:number", "point-missing", "point-extra"], ALLMODES,
           ["binary scalar,paren bool-comparison", "binary paren bool-comparison"]))
-add("C18-vector-matching-on-ignoring",
-    'vector-vector operations with on()/ignoring(): in a range query req_total{code="500"} + on(instance, job) req_total{code="200"} keeps producing points for a pair after one side has ended or gone stale (the instant queries at those steps return nothing) and drops other pairs; an aggregation over such an operation (sum by (job) (rate(a[5m]) < on(instance, job) b)) returns nothing or other values even as instant query',
+add("C18-vector-matching",
+    'vector-vector operations (with on()/ignoring() or default matching): in a range query req_total{code="500"} + on(instance, job) req_total{code="200"} keeps producing points for a pair after one side has ended or gone stale (the instant queries at those steps return nothing) and drops other pairs; as instant query rate(req_total[5m]) > ignoring(code) rate(req_total{code="200"}[5m]) returns nothing; an aggregation over such an operation (sum by (job) (rate(a[5m]) < on(instance, job) b)) returns nothing or other values even as instant query',
     "engine/executor/prom_binop_transform.go (matching of series across the steps of a range query; as sub-query of an aggregation)",
-    every(["point-extra", "point-missing", "series-missing", "series-extra", "value:number"], ("range", "range-vs-instant"),
+    every(["point-extra", "point-missing", "series-missing", "series-extra", "value:number"], ALLMODES,
           ["vector-matching "]) +
     every(["series-missing", "series-extra", "value:number", "point-missing", "point-extra"], ALLMODES,
           ["aggregation over vector-matching: "]))
 add("C18-binary-of-two-aggregations",
     "binary operation between two aggregations, e.g. avg by (instance) (resets(req_total[5m])) <= bool avg by (instance) (avg_over_time(mem_used[5m] offset 90s)): empty result as instant query; in range queries extra or missing points and series",
     "lib/util/lifted/promql2influxql/binary_expr.go (binary operation over two aggregate sub-queries, offset on one side)",
-    every(["series-missing", "series-extra", "point-extra", "point-missing", "value:number"], ALLMODES, ["binary aggregation-"]))
+    every(["series-missing", "series-extra", "point-extra", "point-missing", "value:number"], ALLMODES,
+          ["vector-matching default: aggregation-"]))
 
 # ---- data-shape families ------------------------------------------------------------------
-GARBAGE = ["point-missing", "point-extra", "series-missing", "duplicate-point", "value:number", "value:nan-vs-number",
+GARBAGE = ["point-missing", "point-extra", "series-missing", "series-extra", "series-set", "labels", "duplicate-point", "value:number", "value:nan-vs-number",
            "value:inf", SAME, NOANS, BIG]
 
 
@@ -97,5 +98,12 @@ add("C18-nan-inf-samples",
     flagged("nan-inf-in-window|", ["value:number", "value:nan-vs-number", "value:inf", "point-extra", "series-extra",
                                    "point-missing", "series-missing"]))
 
+# first match names the finding: the narrower family first
+ORDER = ["C18-matcher-label-on-no-series", "C18-matcher-empty-value", "C18-regex-matcher-unanchored",
+         "C18-aggregation-over-offset-selector-range-query", "C18-quantile-over-subexpression-empty",
+         "C18-nested-bool-comparison", "C18-binary-of-two-aggregations", "C18-vector-matching",
+         "C18-window-across-shard-groups", "C18-window-across-file-memtable-seam",
+         "C18-range-function-range-below-step", "C18-nan-inf-samples"]
+out.sort(key=lambda e: ORDER.index(e["id"]))
 json.dump({"findings": out}, open("/verif/known_findings.d/c18.json", "w"), indent=1)
 print(len(out), "entries")
